@@ -5,6 +5,8 @@ import (
 	"encoding/json"
 	"fmt"
 	"os"
+	"runtime/debug"
+	"runtime/metrics"
 	"sort"
 	"strconv"
 	"strings"
@@ -334,7 +336,14 @@ func TestWorker(t *testing.T) {
 			rp := Replay{Property: prop, Tier: tier, Seed: seed, Run: run, Sig: v.Sig, Detail: v.Detail,
 				Choices: c.Values(), SchedHash: res.SchedHash, Steps: res.Steps, OrigDraws: len(c.Rec), Sample: res.Sample}
 			pending = append(pending, rp)
+			// write the unminimised replay at once: a violation already found must survive a worker
+			// that later dies (e.g. the defect under test exhausts memory); the minimised one replaces it
+			name := fmt.Sprintf("%s/%s-%s-seed%d-run%d.json", replayDir, prop, sanitize(rp.Sig), seed, rp.Run)
+			if b, err := json.MarshalIndent(rp, "", " "); err == nil && os.WriteFile(name, b, 0o644) == nil {
+				emit(msg{Type: "violation", Worker: worker, Sig: rp.Sig, Detail: rp.Detail, Replay: name, Run: rp.Run})
+			}
 		}
+		releaseMemoryIfLarge()
 	}
 	// minimise after the exploration budget, so that many distinct signatures do not starve the search
 	minStart := time.Now()
@@ -377,6 +386,20 @@ func TestWorker(t *testing.T) {
 	sort.Strings(sum.States)
 	sum.WallS = time.Since(start).Seconds()
 	emit(sum)
+}
+
+// releaseMemoryIfLarge hands memory back to the operating system after a run that made the
+// process large (a defect under test may allocate gigabytes per run; sixteen workers doing so
+// at once would otherwise be killed by the kernel before they can report).
+func releaseMemoryIfLarge() {
+	smp := []metrics.Sample{{Name: "/memory/classes/total:bytes"}, {Name: "/memory/classes/heap/released:bytes"}}
+	metrics.Read(smp)
+	if smp[0].Value.Kind() != metrics.KindUint64 || smp[1].Value.Kind() != metrics.KindUint64 {
+		return
+	}
+	if smp[0].Value.Uint64()-smp[1].Value.Uint64() > 1<<30 {
+		debug.FreeOSMemory()
+	}
 }
 
 func sanitize(s string) string {
